@@ -476,6 +476,11 @@ pub fn run_check(check: &'static dyn Check, opts: RunOpts) -> i32 {
     write_evidence(check, &opts, &agg, t0, json!({"reported": reported, "prepare": extra}), violations, &notes);
     let _ = std::fs::remove_dir_all(&run_dir);
     let nt = agg.nontrivial_hashes.len() + agg.inner_hashes.len();
+    if std::env::var("VERIF_VERBOSE").is_ok() {
+        for (l, c) in &agg.labels {
+            println!("  label {l}: {c} ({:.1}%)", *c as f64 * 100.0 / agg.evaluations.max(1) as f64);
+        }
+    }
     println!(
         "{id}: {} cases ({} inner evaluations), {} distinct non-trivial, {} discarded, {} known-finding hits, {} violation signature(s), {:.1}s",
         agg.evaluations,
